@@ -257,6 +257,18 @@ impl ClassSetAlternativeStrings {
         self.0.extend(other);
     }
 
+    // Replace every string by its simple case folding, so that strings are compared up to case.
+    fn fold(&mut self) {
+        let mut folded: Vec<Box<[CodePoint]>> = Vec::new();
+        for string in self.0.drain(..) {
+            let string: Box<[CodePoint]> = string.iter().map(|&c| unicode::fold(c)).collect();
+            if !folded.contains(&string) {
+                folded.push(string);
+            }
+        }
+        self.0 = folded;
+    }
+
     fn intersect(&mut self, other: &[Box<[CodePoint]>]) {
         self.0.retain(|string| other.contains(string));
     }
@@ -1374,9 +1386,11 @@ where
             }
             ClassSetOperand::Class(mut class) => {
                 class.codepoints = unicode::add_icase_code_points(class.codepoints);
+                class.alternatives.fold();
                 ClassSetOperand::Class(class)
             }
-            ClassSetOperand::ClassStringDisjunction(s) => {
+            ClassSetOperand::ClassStringDisjunction(mut s) => {
+                s.fold();
                 ClassSetOperand::ClassStringDisjunction(s)
             }
         }
